@@ -1,9 +1,6 @@
-pub mod node;
+pub mod dynshape;
 pub mod guard;
+pub mod node;
 pub mod report;
+pub use dynshape::*;
 pub use node::*;
-
-/// Generic dispatch over the catalog.
-pub trait Visitor {
-    fn visit<T: Node + ?Sized + 'static>(&mut self, id: &'static str);
-}
